@@ -333,14 +333,6 @@ type runInfo struct {
 	Calls     []outkit.Call
 }
 
-// rareOps are operations that occur once or twice per run; their positions
-// are always part of a sampled fault enumeration.
-var rareOps = map[string]bool{
-	"dir-MergeDirectoryContents": true, "dir-RemoveAll": true, "dir-EnterBuildDirectory": true,
-	"cas-FindMissing": true, "ac-Put": true, "file-Len": true, "dir-Readlink": true,
-	"dir-EnterParentPopulatableDirectory": true, "dir-Lstat": true,
-}
-
 func faultSituation(hit outkit.Call) string {
 	return "fault:" + hit.Store + "-" + hit.Op
 }
@@ -522,7 +514,12 @@ func checkPreRun(cs *caseSpec, before *outkit.Node, f *findings) {
 
 // --- executor driver ------------------------------------------------------------
 
-func (h *harness) runExecutor(cs *caseSpec, useVirtual bool, faultAt int) (info runInfo) {
+// malformedRequests are request defects the local executor has to refuse
+// before it touches anything; "runner-error" lets the command produce its
+// outputs and then fail.
+var malformedRequests = []string{"no-action", "invalid-timeout", "bad-action-digest", "bad-input-root-digest", "bad-command-digest", "command-not-in-cas", "runner-error"}
+
+func (h *harness) runExecutor(cs *caseSpec, useVirtual bool, faultAt int, malform string) (info runInfo) {
 	r := h.r
 	df := digestFunctions[0]
 	var f findings
@@ -569,7 +566,24 @@ func (h *harness) runExecutor(cs *caseSpec, useVirtual bool, faultAt int) (info 
 		Timeout:         durationpb.New(60e9),
 	}
 	actionRaw, _ := proto.Marshal(action)
-	actionDigest := outkit.DigestOf(df, actionRaw)
+	actionDigestProto := outkit.DigestOf(df, actionRaw).GetProto()
+	switch malform {
+	case "no-action":
+		action = nil
+	case "invalid-timeout":
+		action.Timeout = &durationpb.Duration{Seconds: 1, Nanos: -5}
+	case "bad-action-digest":
+		actionDigestProto = &remoteexecution.Digest{Hash: "not-a-hash", SizeBytes: 3}
+	case "bad-input-root-digest":
+		action.InputRootDigest = &remoteexecution.Digest{Hash: "1234", SizeBytes: 1}
+	case "bad-command-digest":
+		action.CommandDigest = &remoteexecution.Digest{Hash: action.CommandDigest.Hash, SizeBytes: -7}
+	case "command-not-in-cas":
+		action.CommandDigest = outkit.ProtoDigest(df.GetEnumValue(), []byte("a command nobody uploaded"))
+	}
+	if malform != "" {
+		extra["request_defect"] = malform
+	}
 
 	var seenWD string
 	runner := &outkit.Runner{OnRun: func(ctx context.Context, req *runner_pb.RunRequest) (*runner_pb.RunResponse, error) {
@@ -603,6 +617,9 @@ func (h *harness) runExecutor(cs *caseSpec, useVirtual bool, faultAt int) (info 
 			if err := outkit.MaterializeVirtual(buildDirectory, logs); err != nil {
 				panic(err)
 			}
+			if malform == "runner-error" {
+				return nil, status.Error(codes.Internal, "verif: runner crashed after producing the outputs")
+			}
 			return &runner_pb.RunResponse{}, nil
 		}
 		abs := filepath.Join(buildRoot, req.InputRootDirectory)
@@ -624,6 +641,9 @@ func (h *harness) runExecutor(cs *caseSpec, useVirtual bool, faultAt int) (info 
 				panic(err)
 			}
 		}
+		if malform == "runner-error" {
+			return nil, status.Error(codes.Internal, "verif: runner crashed after producing the outputs")
+		}
 		return &runner_pb.RunResponse{}, nil
 	}}
 	var err error
@@ -638,11 +658,28 @@ func (h *harness) runExecutor(cs *caseSpec, useVirtual bool, faultAt int) (info 
 	defer stack.Close()
 	updates := make(chan *remoteworker.CurrentState_Executing, 16)
 	resp := stack.Executor.Execute(context.Background(), stack.FilePool(), nil, df, &remoteworker.DesiredState_Executing{
-		ActionDigest: actionDigest.GetProto(), Action: action,
+		ActionDigest: actionDigestProto, Action: action,
 	}, updates)
 	st := status.FromProto(resp.Status)
 	extra["response_status"] = st.Code().String() + ": " + st.Message()
 
+	if malform != "" && malform != "runner-error" {
+		// The request itself is unusable: nothing may run or be reported.
+		cs.Situations["malformed-request-refused"] = true
+		if runner.Calls.Load() > 0 {
+			f.add("malformed-request command-ran", "the command ran for a request with defect %q", malform)
+		}
+		if st.Code() == codes.OK {
+			f.add("malformed-request ok-response", "OK response for a request with defect %q", malform)
+		}
+		if n := len(resp.Result.GetOutputFiles()) + len(resp.Result.GetOutputDirectories()) + len(resp.Result.GetOutputSymlinks()); n > 0 {
+			f.add("outputs-reported although-command-did-not-run", "%d outputs reported for a request with defect %q", n, malform)
+		}
+		if ac.Len() > 0 {
+			f.add("malformed-request cached", "AC entry for a request with defect %q", malform)
+		}
+		return
+	}
 	if len(cs.Invalid) > 0 {
 		if runner.Calls.Load() > 0 {
 			f.add("invalid-path accepted", "the command ran although its paths %q are absolute or leave the input root", cs.Invalid)
@@ -675,6 +712,17 @@ func (h *harness) runExecutor(cs *caseSpec, useVirtual bool, faultAt int) (info 
 		f.add("working-directory altered", "runner received working directory %q, declared %q", seenWD, cs.WorkingDirectory)
 	}
 	exp := cs.expected(df.GetEnumValue())
+	if malform == "runner-error" {
+		cs.Situations["runner-failed-after-producing-outputs"] = true
+		if st.Code() == codes.OK {
+			f.add("runner-error not-reported", "OK response although the runner failed")
+		}
+		if ac.Len() > 0 {
+			f.add("runner-error cached", "AC entry although the runner failed")
+		}
+		checkListed(cs, df, resp.Result, cas, &f)
+		return
+	}
 	if st.Code() != codes.OK {
 		switch {
 		case trig:
@@ -729,6 +777,7 @@ func TestCheck(t *testing.T) {
 		"fault:dir-EnterBuildDirectory", "fault:dir-MergeDirectoryContents", "fault:dir-RemoveAll",
 		"fault:file-OpenRead", "fault:file-ReadAt", "fault:file-Len", "fault:cas-Put", "fault:cas-FindMissing",
 		"fault-before-the-command-ran", "fault-after-the-command-ran",
+		"malformed-request-refused", "runner-failed-after-producing-outputs",
 	} {
 		if r.ReplayFile() == "" {
 			r.Floor(s, 10)
@@ -741,9 +790,9 @@ func TestCheck(t *testing.T) {
 	defer os.RemoveAll(tmp)
 	h := &harness{r: r, tmp: tmp}
 
-	n := r.Pick(1600, 20000)
+	n := r.Pick(1400, 16000)
 	const workers = 4
-	const maxFaultPositions = 16
+	const maxFaultPositions = 12
 	first := 0
 	if rf := r.ReplayFile(); rf != "" {
 		// Re-run exactly the recorded case.
@@ -786,9 +835,9 @@ func TestCheck(t *testing.T) {
 			case "direct/virtual":
 				return h.runDirect(cs, virtualBackend{}, df, faultAt)
 			case "executor/naive":
-				return h.runExecutor(cs, false, faultAt)
+				return h.runExecutor(cs, false, faultAt, "")
 			default:
-				return h.runExecutor(cs, true, faultAt)
+				return h.runExecutor(cs, true, faultAt, "")
 			}
 		}
 		base := run(0)
@@ -801,27 +850,48 @@ func TestCheck(t *testing.T) {
 		case "direct/naive":
 			enumerate = i%40 == 0
 		case "direct/virtual":
-			enumerate = i%20 == 3
+			enumerate = i%40 == 3 || i%40 == 19
 		case "executor/naive":
 			enumerate = i%50 == 4
 		case "executor/virtual":
 			enumerate = i%50 == 7
 		}
 		if enumerate && len(cs.Invalid) == 0 && base.Counted > 0 {
-			var positions, common []int
+			// One position of every kind of operation, the rest
+			// drawn by the PRNG; big hierarchies get fewer positions.
+			limit := maxFaultPositions
+			if base.Counted > 150 {
+				limit = maxFaultPositions / 2
+			}
+			byOp := map[string][]int{}
+			var opNames []string
 			for _, c := range base.Calls {
 				if c.Seq == 0 {
 					continue
 				}
-				if rareOps[c.Store+"-"+c.Op] {
-					positions = append(positions, c.Seq)
-				} else {
-					common = append(common, c.Seq)
+				op := c.Store + "-" + c.Op
+				if byOp[op] == nil {
+					opNames = append(opNames, op)
+				}
+				byOp[op] = append(byOp[op], c.Seq)
+			}
+			sort.Strings(opNames)
+			var positions, common []int
+			for _, op := range opNames {
+				l := byOp[op]
+				rng.Shuffle(len(l), func(a, b int) { l[a], l[b] = l[b], l[a] })
+				for j, k := range l {
+					if j < 1 {
+						positions = append(positions, k)
+					} else {
+						common = append(common, k)
+					}
 				}
 			}
+			sort.Ints(common)
 			rng.Shuffle(len(common), func(a, b int) { common[a], common[b] = common[b], common[a] })
 			for _, k := range common {
-				if len(positions) >= maxFaultPositions {
+				if len(positions) >= limit {
 					break
 				}
 				positions = append(positions, k)
@@ -837,6 +907,15 @@ func TestCheck(t *testing.T) {
 				}
 			}
 			r.Count("fault-enumerated-cases", 1)
+		}
+		// Unusable requests and a runner that fails after producing the
+		// outputs, on a fixed subset of the executor cases.
+		if (driver == "executor/naive" || driver == "executor/virtual") && i%50 < 10 {
+			for _, m := range malformedRequests {
+				r.Case("case %d driver=%s request defect %s", i, driver, m)
+				h.runExecutor(cs, driver == "executor/virtual", 0, m)
+				r.Hash(ev.HashOf(driver, i, "defect", m), true)
+			}
 		}
 		names := make([]string, 0, len(cs.Situations))
 		for s := range cs.Situations {
